@@ -116,6 +116,7 @@ def strategy_(draw, tier):
         pts += [c * csz, (c + 1) * csz]
     reqs = draw(strat.requests(size, csz, count=6, points=pts, whole_limit=4 << 20))
     spec["via_minimal"] = draw(strat.minimal_handle())
+    spec["fault"] = draw(strat.fault())
     if kind != "hds":
         # how the descriptor names the image file: a bare name, a relative path with a directory part (inside the bundle, or a
         # sibling bundle), a name in decomposed Unicode form (stored under exactly that name)
@@ -199,7 +200,7 @@ def check(spec) -> Outcome:
             return out
         if s.size != size:
             out.fail(f"mismatch|{tag}-size", f"size {s.size} != {size}")
-        check_reads(out, s, lay, spec["requests"], tag)
+        check_reads(out, s, lay, spec["requests"], tag, fault=spec.get("fault"), fault_fh=fh)
         from hv.core import also_minimal
 
         also_minimal(out, spec, fh, HDS, lay, spec["requests"], tag)
